@@ -35,6 +35,7 @@ class Verdict:
         self.entries = {}             # fullpath -> merged (tags, size, cks dict)
         self.ignores = set()
         self.multi = {}               # fullpath -> number of file entries when > 1
+        self.oserror = []             # objects the reference itself cannot stat (e.g. ELOOP)
 
     def __repr__(self):
         return (f'Verdict({self.kind}, offenders={self.offenders}, soft={self.soft}, '
@@ -271,6 +272,8 @@ def expected_verify(root, top='Manifest', path='', last_mtime=None):
         elif st[0] == 'absent':
             v.dc.append('unlisted broken symlink')
         else:
+            if st[0] == 'other' and st[1].startswith('errno'):
+                v.oserror.append(rel)
             offend(rel, 'stray:' + st[0])
 
     def on_dir_entry(rel):
@@ -289,6 +292,8 @@ def expected_verify(root, top='Manifest', path='', last_mtime=None):
             continue
         if why == 'enotdir':
             v.enotdir.append(full)
+        if why.startswith('type:errno'):
+            v.oserror.append(full)
         offend(full, why)
         if (last_mtime is not None and st[0] == 'reg' and st[1] == size
                 and st[1] != 0 and st[2] <= last_mtime):
@@ -336,6 +341,8 @@ def expected_path_verify(root, top, path):
     if ignored:
         return ('pass', 'ignored')
     st = file_state(root, path)
+    if st[0] == 'other' and st[1].startswith('errno'):
+        return ('dontcare', 'object cannot be inspected: ' + st[1])
     if not found:
         if st[0] == 'absent':
             return ('pass', 'absent and unlisted')
